@@ -130,13 +130,28 @@ func runC15(c *vlib.Ctx) {
 				c.Violate("roundtrip:nouncompress-error:"+f.name, fmt.Sprintf("DeserializeData(uncompress=false) error: %v", err), nil)
 				continue
 			}
+			// The format reported for the stored bytes need not be the one asked for (an implementation may store a value that does
+			// not shrink in another form); what the statement demands is that the pass-through pair is lossless: the stored bytes,
+			// re-wrapped under the format that was REPORTED for them, deserialise to the original data.
 			if cf != f.comp.Format() {
-				c.Violate("roundtrip:format-mismatch:"+f.name, fmt.Sprintf("reported compression %v != %v", cf, f.comp.Format()), nil)
+				c.Outcome("rt:stored-under-another-format:" + f.name)
 			}
 			c.Eval(1)
-			ser2, err := dvid.SerializePrecompressedData(raw, f.comp, f.cksum)
-			if err != nil || !bytes.Equal(ser2, ser) {
-				c.Violate("roundtrip:precompressed:"+f.name, fmt.Sprintf("SerializePrecompressedData(raw) != original serialization (%s,%d): err=%v", p.kind, p.n, err),
+			rc, cerr := dvid.NewCompression(cf, dvid.DefaultCompression)
+			if cerr != nil {
+				c.Violate("roundtrip:reported-format-unusable:"+f.name, fmt.Sprintf("DeserializeData(uncompress=false) reported format %v, which NewCompression rejects: %v", cf, cerr), nil)
+				continue
+			}
+			ser2, err := dvid.SerializePrecompressedData(raw, rc, f.cksum)
+			var got2 []byte
+			var derr2 error
+			if err == nil {
+				if pn := vlib.Safely(func() { got2, _, derr2 = dvid.DeserializeData(ser2, true) }); pn != nil {
+					derr2 = fmt.Errorf("panic: %v", pn)
+				}
+			}
+			if err != nil || derr2 != nil || !bytes.Equal(got2, data) {
+				c.Violate("roundtrip:precompressed:"+f.name, fmt.Sprintf("pass-through pair not lossless (%s,%d): DeserializeData(uncompress=false) -> SerializePrecompressedData(reported format %v) -> DeserializeData gives err=%v/%v, %d bytes for %d", p.kind, p.n, cf, err, derr2, len(got2), len(data)),
 					map[string]interface{}{"kind": p.kind, "len": p.n, "format": f.name})
 			}
 		}
@@ -333,7 +348,9 @@ func runC15(c *vlib.Ctx) {
 				// CRC-32 detects every error burst of <= 32 bits, so any single-byte alteration must be caught.
 				c.Violate("corrupt:crc-undetected:"+j.f.name, fmt.Sprintf("payload altered (%s) under CRC32 but DeserializeData succeeded", what), rep)
 			}
-			if payloadAltered && j.f.comp.Format() == dvid.Gzip && !same {
+			// gzip values carry gzip's own CRC instead of the envelope's: when a checksum was asked for, an altered payload must not
+			// come back as different data (nothing is demanded of values serialised without a checksum)
+			if payloadAltered && j.f.comp.Format() == dvid.Gzip && j.f.cksum == dvid.CRC32 && !same {
 				c.Violate("corrupt:gzip-undetected:"+j.f.name, fmt.Sprintf("gzip payload altered (%s): DeserializeData succeeded with different bytes", what), rep)
 			}
 		}
